@@ -36,7 +36,10 @@ BODIES = [
     ('ss', lambda t: [t, '/a/b']),
     ('sss', lambda t: [t, '/a/', 'x']),
     ('si', lambda t: [t, 7]),
+    ('', lambda t: []),
+    ('', lambda t: []),
 ]
+BODYLESS_SERIAL0 = 1 << 20
 
 RULES = [
     {}, {'type': 'signal'}, {'interface': 'a.b'}, {'member': 'M'}, {'path': '/a/b'}, {'path_namespace': '/a'},
@@ -109,6 +112,8 @@ class World:
 def _token_of(m):
     if m.body and isinstance(m.body[0], str) and m.body[0].startswith('tok'):
         return m.body[0]
+    if not m.body and isinstance(m.serial, int) and m.serial >= BODYLESS_SERIAL0 and m.fields.get('destination') != BUS:
+        return 'tokS%d' % m.serial        # messages without a body are told apart by a serial from a reserved range
     return None
 
 
@@ -297,6 +302,10 @@ def run_history(ctx, seed, idx):
             fields['destination'] = dest
         serial = ca.next_serial() + r.choice([0, 0, 1000])
         ca.serial = serial
+        if not sig:
+            serial = BODYLESS_SERIAL0 + int(tok[3:]) if tok[3:].isdigit() else BODYLESS_SERIAL0 + len(hist)
+            tok = 'tokS%d' % serial
+            ctx.count('bodyless_messages')
         raw = RM.build(mtype, serial, fields, sig, body, r.random() < 0.7, flags)
         hist.append([op, a, RM.TYPE_NAMES[mtype], dest, tok, forged, flags, sig])
         ca.send_raw(raw)
